@@ -21,20 +21,21 @@ def setup(ip):
     return g, p, s, d, x
 
 
-def do_transform(ip, g, entry, x, s):
-    """returns (transformed var or None, model, bijector description: (tag, param source))"""
+def do_transform(ip, g, entry, x, s, copy=False):
+    """returns (transformed var or None, model, bijector description: (tag, param source)); copy=True: the model is built from a deep copy of the graph"""
+    ck = {"copy": True} if copy else {}
     if entry == "instance":
         t = ip.call(method(ip, x, "transform"), [bijector_instance(ip, "B")], {})
-        return t, g.build(x, s), ("B", lambda vals: [])
+        return t, g.build(x, s, **ck), ("B", lambda vals: [])
     if entry == "class_args":
         t = ip.call(method(ip, x, "transform"), [bijector_class(ip, "B"), s], {})
-        return t, g.build(x), ("B", lambda vals: [vals["s"]])
+        return t, g.build(x, **ck), ("B", lambda vals: [vals["s"]])
     if entry == "default":
         t = ip.call(method(ip, x, "transform"), [], {})
-        return t, g.build(x, s), ("default_D", lambda vals: [vals["p"]])
+        return t, g.build(x, s, **ck), ("default_D", lambda vals: [vals["p"]])
     if entry == "auto":
         ip.setattr(x, "auto_transform", True)
-        model = g.build(x, s)
+        model = g.build(x, s, **ck)
         return model.f["_vars"].get("x_transformed"), model, ("default_D", lambda vals: [vals["p"]])
     gb = ip.call(g.GB, [], {})
     if entry == "deprecated_instance":
@@ -44,23 +45,27 @@ def do_transform(ip, g, entry, x, s):
         t = ip.call(method(ip, gb, "transform"), [x], {})
         tag = ("default_D", lambda vals: [vals["p"]])
     ip.call(method(ip, gb, "add"), [x, s], {})
-    return t, ip.call(method(ip, gb, "build_model"), [], {}), tag
+    return t, ip.call(method(ip, gb, "build_model"), [], dict(ck)), tag
 
 
-def entry_unit(entry):
+def entry_unit(entry, copy=False):
     fns = [f"{N}::Var.transform", f"{N}::_transform_var_with_bijector_instance", f"{N}::_transform_var_with_bijector_class", f"{N}::Var.value_node.fset",
            f"{N}::Var.dist_node.fset", f"{N}::Var.parameter.fset", f"{M}::GraphBuilder.build_model", f"{M}::GraphBuilder.transform", f"{M}::_transform_back"]
 
-    @unit(f"C14.{entry}", "C14", fns, assumptions=["A-TFP: Invert swaps forward/inverse and the log-det-Jacobians; TransformedDistribution(d,b).log_prob(y) = d.log_prob(b^-1(y)) + ildj_b(y); "
+    @unit(f"C14.{entry}" + (".copied_graph" if copy else ""), "C14", fns + ([f"{M}::Model.__init__"] if copy else []), assumptions=(
+          ["the model is built from a DEEP COPY of the graph (build_model(copy=True), as LieselInterface / GooseModel do); A-PY: deepcopy shares function objects, "
+           "so whatever a function captured in its closure still refers to the ORIGINAL graph"] if copy else []) + ["A-TFP: Invert swaps forward/inverse and the log-det-Jacobians; TransformedDistribution(d,b).log_prob(y) = d.log_prob(b^-1(y)) + ildj_b(y); "
                                                     "b(b^-1(v)) = v (ground instance)", "graph: x ~ D(rate=p), parameter; bijector argument s a model variable"])
-    def u(ip, entry=entry):
+    def u(ip, entry=entry, copy=copy):
         """after the transformation (and after re-assigning every input): the new variable is strong and unconstrained with initial value
         b^-1(v); the original variable is b(new variable) (value unchanged initially), its log-density is gone (no distribution of its own);
         the new variable's log-density at t is the original log-density at b(t) plus log|det db/dt| with the CURRENT bijector parameters;
         the parameter flag moved, observed / role are untouched, per_obs and the distribution's inputs are kept."""
         c = ip.ctx
         g, p, s, d, x = setup(ip)
-        t, model, (btag, bparams) = do_transform(ip, g, entry, x, s)
+        t, model, (btag, bparams) = do_transform(ip, g, entry, x, s, copy)
+        if copy:  # the relations are stated for the variables OF THE MODEL (the copies); the user's graph keeps its own values
+            t, x = model.f["_vars"].get("x_transformed"), model.f["_vars"]["x"]
         c.oblige("transformed_variable_exists", isinstance(t, Obj) and ip.getattr(t, "name") == "x_transformed" and "x_transformed" in model.f["_vars"])
         if not isinstance(t, Obj):
             return
@@ -97,6 +102,7 @@ def entry_unit(entry):
 
 for _e in ENTRY:
     entry_unit(_e)
+    entry_unit(_e, copy=True)
 
 
 def chained_unit(first):
@@ -167,3 +173,12 @@ def u_rejections(ip):
     kind, r = try_call(ip, method(ip, x, "transform"), [bijector_instance(ip, "B"), s])
     c.oblige("instance_with_arguments_rejected", kind == "raise" and r.cls == "RuntimeError")
     c.oblige("rejected_calls_leave_variable_untouched", ip.getattr(x, "has_dist") is True and ip.getattr(x, "parameter") is True and ip.getattr(x, "strong") is True)
+
+
+# liesel's own bijector is a supported bijector of Var.transform: its two log-det-Jacobians must be consistent (same harness as
+# C18.algebraic_sigmoid); that they equal the log-derivative is bounded natively (calculus is outside the solver's reach)
+from contracts.c18 import SIG as _SIG, u_sigmoid  # noqa: E402
+
+unit("C14.liesel_bijector_log_det_jacobians_consistent", "C14", [f"{_SIG}::AlgebraicSigmoid._forward", f"{_SIG}::AlgebraicSigmoid._inverse",
+                                                                 f"{_SIG}::AlgebraicSigmoid._inverse_log_det_jacobian", f"{_SIG}::AlgebraicSigmoid._forward_log_det_jacobian"],
+     assumptions=["A-REAL", "sqrt(a) is the non-negative root for a >= 0; log(1/a) = -log(a) for a > 0 (ground instances)"])(u_sigmoid)
